@@ -66,7 +66,19 @@ class FalseResource(Resource):
         return False
 
 
-SHAPES = {"plain": Resource, "empty": EmptyResource, "false": FalseResource}
+class StaleResource(Resource):
+    """a handle that has gone stale: closing it is attempted (counted) and fails - the other resources still have to be closed"""
+    def close(self):
+        Resource.close(self)
+        raise OSError("stale handle")
+
+
+class Unprintable(Exception):
+    def __str__(self):
+        raise RuntimeError("this exception has no text form")
+
+
+SHAPES = {"plain": Resource, "empty": EmptyResource, "false": FalseResource, "stale": StaleResource}
 
 
 def _classes():
@@ -77,7 +89,8 @@ def _classes():
     @api.expose
     class Res(object):
         def track(self, token, n, shape="plain"):
-            rs = [SHAPES[shape]("%s-%d" % (token, i)) for i in range(n)]
+            # ("stale": the FIRST resource of the connection is the one whose close() fails)
+            rs = [(SHAPES[shape] if (shape != "stale" or i == 0) else Resource)("%s-%d" % (token, i)) for i in range(n)]
             with LOCK:
                 REG.setdefault(token, []).extend(rs)
             for r in rs:
@@ -111,6 +124,12 @@ def _classes():
         def boom(self):
             raise ValueError("boom")
 
+        @api.callback
+        def unprintable(self):
+            # a method flagged @callback (its exceptions are re-raised in the daemon after the error reply) fails with an
+            # exception that cannot be turned into text: the connection ends inside the server's own error handling
+            raise Unprintable()
+
     @api.behavior(instance_mode="session")
     @api.expose
     class Sess(object):
@@ -132,11 +151,11 @@ def _classes():
     return Res, Sess
 
 
-ENDINGS = ["orderly", "abort-offset", "fin-offset", "bad-magic", "oversize", "undecodable-then-close", "security", "error-then-abort", "stay-open"]
+ENDINGS = ["orderly", "abort-offset", "fin-offset", "bad-magic", "oversize", "undecodable-then-close", "security", "error-then-abort", "stay-open", "callback-unprintable"]
 
 conn_spec = st.fixed_dictionaries({
     "track": st.integers(0, 3), "untrack": st.integers(0, 3), "session": st.booleans(),
-    "shape": st.sampled_from(["plain", "plain", "empty", "false"]), "dropped": st.sampled_from([0, 0, 1, 2, 3]), "ctor_res": st.booleans(), "streams": st.sampled_from([0, 0, 1, 2]),
+    "shape": st.sampled_from(["plain", "plain", "empty", "false", "stale"]), "dropped": st.sampled_from([0, 0, 1, 2, 3]), "ctor_res": st.booleans(), "streams": st.sampled_from([0, 0, 1, 2]),
     "ending": st.sampled_from(ENDINGS + ["abort-offset", "fin-offset", "security"]),
     "offset": st.integers(0, 200), "ser": st.sampled_from(["marshal", "json", "serpent", "msgpack"]),
 })
@@ -352,6 +371,11 @@ def run_case(case, servertype=None, commtimeout=None, keep=False):
             elif kind == "error-then-abort":
                 info["call"](info, "res", "boom")
                 peer.abort()
+            elif kind == "callback-unprintable":
+                info["call"](info, "res", "unprintable")
+                peer.half_close()
+                peer.read_until_closed()
+                peer.close()
             elif kind == "server-timeout":
                 off = 1 + c["offset"] % (len(msg) - 1)
                 peer.send(msg[:off])
@@ -434,7 +458,7 @@ def _labels(case):
         if c["track"] > c["untrack"]:
             l.append("has-tracked")
             if c.get("shape", "plain") != "plain":
-                l.append("tracked-resource-is-falsy")
+                l.append("tracked-resource-close-raises" if c.get("shape") == "stale" else "tracked-resource-is-falsy")
             if c.get("dropped"):
                 l.append("tracked-after-dropped-resources")
         if c["session"]:
